@@ -21,13 +21,14 @@ RULE = ('(a) data sets: ordered tuples of distinct lattice points (Q: 1-D {0..4}
         'every ordered list of <=4 (Q: <=3 for 2-D) distinct grid points as centers x metrics x dtypes through '
         'assign_to_nearest_center, predict (after fit), find_cluster_centers; (b) all compositions of n<=6 (T: 8) x all '
         'flat center indices x all label vectors pattern through ClusterResult.partition/partition_list/'
-        'partition_indices; (c) batch_reassign: all length vectors (<=3 files, length 1..3) x every batch size from '
+        'partition_indices with list and ndarray center indices, partition called twice; find_cluster_centers for label dtypes '
+        'int8..int64 over 3..300 frames (index range of the label dtype); (c) batch_reassign: all length vectors (<=3 files, length 1..3) x every batch size from '
         'max(lengths) to sum+1; state = canonical input; non-trivial = >=2 centers and a frame that is not a center '
         '/ composition with >=2 trajectories')
 ASSUMPTIONS = ['RMSD clauses (batch reassignment) compared at 1e-4: mdtraj float32 QCP superposition differs by up to ~2e-5 between precentered-batch and per-file evaluation of the same frames',
                'batch_reassign is driven with determine_batch_size substituted by the explorer (environment answer) '
                'and the simulated in-process worker pool; the real trajectory files are written with mdtraj']
-GUARDS = {'more_centers_than_frames': 100, 'centers_not_frames': 100, 'ragged_partition': 100, 'square_partition': 50,
+GUARDS = {'ndarray_indices': 100, 'label_dtypes': 50, 'more_centers_than_frames': 100, 'centers_not_frames': 100, 'ragged_partition': 100, 'square_partition': 50,
           'len1_traj': 100, 'predict': 100, 'batch_boundary_cases': 20}
 NSH = {'quick': 32, 'thorough': 128}
 METRICS = ('euclidean', 'manhattan', 'chebyshev')
@@ -37,6 +38,7 @@ def shards(tier, seed):
     sh = [('assign', tier, i) for i in range(NSH[tier])]
     sh += [('partition', tier, n) for n in range(1, (7 if tier == 'quick' else 9))]
     sh += [('batch', tier, i) for i in range(4 if tier == 'quick' else 12)]
+    sh += [('fcc', tier, 0)]
     return sh
 
 
@@ -152,14 +154,25 @@ def check_partition(case, ctx):
     lengths, idxs, lkind = case['lengths'], case['indices'], case['lengths_kind']
     n = sum(lengths)
     ctx.ev()
-    ctx.state(('part', tuple(lengths), tuple(idxs), lkind), nontrivial=len(lengths) >= 2)
+    ctx.state(('part', tuple(lengths), tuple(idxs), lkind, case.get('indices_kind', 'list')), nontrivial=len(lengths) >= 2)
     assign = np.arange(n, dtype=int) * 3 % 7
     dist = np.arange(n, dtype=float) * 0.5 + 0.25
     centers = [np.array([float(i)]) for i in idxs]
     L = {'list': list(lengths), 'array': np.array(lengths), 'tuple': tuple(lengths)}[lkind]
-    res = util.ClusterResult(center_indices=list(idxs), assignments=assign.copy(), distances=dist.copy(), centers=centers)
+    ikind = case.get('indices_kind', 'list')
+    ci = list(idxs) if ikind == 'list' else np.array(idxs, dtype=int)
+    res = util.ClusterResult(center_indices=ci, assignments=assign.copy(), distances=dist.copy(), centers=centers)
     try:
         p = res.partition(L)
+        if ikind != 'list':
+            ctx.guard('ndarray_indices')
+            if [int(x) for x in res.center_indices] != list(idxs):
+                ctx.violation('partition:mutates_center_indices', case,
+                              'partition() changed the flat center indices of the result it was called on: %r -> %r' % (
+                                  list(idxs), [int(x) for x in res.center_indices]))
+            p2 = res.partition(L)
+            if [tuple(map(int, x)) for x in p2.center_indices] != [tuple(map(int, x)) for x in p.center_indices]:
+                ctx.violation('partition:second_call_differs', case, '%r then %r' % (p.center_indices, p2.center_indices))
     except Exception as e:
         ctx.violation('partition:raises:%s' % type(e).__name__, case, 'partition raised %r on %r' % (e, case))
         return
@@ -210,6 +223,34 @@ def check_partition(case, ctx):
             ctx.violation('partition_indices:differs', case, '%r vs %r' % (pi, p.center_indices))
     except Exception as e:
         ctx.violation('partition_helpers:raises:%s' % type(e).__name__, case, repr(e))
+
+
+def check_fcc_dtypes(ctx):
+    from enspara.cluster import util
+    for dt in ('int8', 'uint8', 'int16', 'uint16', 'int32', 'int64'):
+        for n in (3, 127, 128, 129, 255, 256, 257, 300):
+            for k in (1, 2, 3):
+                ctx.ev()
+                ctx.guard('label_dtypes')
+                case = {'kind': 'fcc_dtype', 'dtype': dt, 'n': n, 'k': k}
+                ctx.state(('fcc', dt, n, k), nontrivial=n > 127)
+                lab = (np.arange(n) * k // n).astype(dt)
+                dist = ((np.arange(n) * 7) % 11 + 1).astype(float)
+                want = []
+                for l in range(k):
+                    mem = np.where(lab == l)[0]
+                    j = mem[-1]
+                    dist[j] = 0.0          # the LAST member is the unique closest one
+                    want.append(int(j))
+                try:
+                    got = [int(x) for x in util.find_cluster_centers(lab, dist)]
+                except Exception as e:
+                    ctx.violation('find_centers:raises:%s:narrow_label_dtype' % type(e).__name__, case,
+                                  'find_cluster_centers raised %r for %s labels over %d frames' % (e, dt, n))
+                    continue
+                if got != want:
+                    ctx.violation('find_centers:wrong_frame:narrow_label_dtype', case, 'got %r want %r (%s labels, %d frames)' % (got, want, dt, n))
+    ctx.sample(case)
 
 
 # ------------------------------------------------------------------ (c) batch reassignment
@@ -323,6 +364,8 @@ def run_shard(sh, ctx):
                         check_assign(case, ctx)
             if j % 997 == 0:
                 ctx.sample(case)
+    elif kind == 'fcc':
+        check_fcc_dtypes(ctx)
     elif kind == 'partition':
         n = i
         for lengths in compositions(n):
@@ -330,8 +373,10 @@ def run_shard(sh, ctx):
                 for idxs in itertools.combinations(range(n), r) if r == 1 else \
                         [(a, b) for a in range(n) for b in range(n) if a != b][::max(1, n // 3)]:
                     for lkind in ('list', 'array', 'tuple'):
-                        case = {'kind': 'partition', 'lengths': lengths, 'indices': list(idxs), 'lengths_kind': lkind}
-                        check_partition(case, ctx)
+                        for ikind in ('list', 'ndarray'):
+                            case = {'kind': 'partition', 'lengths': lengths, 'indices': list(idxs), 'lengths_kind': lkind,
+                                    'indices_kind': ikind}
+                            check_partition(case, ctx)
         ctx.sample(case)
     else:
         cases = batch_cases(tier)
@@ -342,4 +387,7 @@ def run_shard(sh, ctx):
 
 
 def replay(case, ctx):
+    if case['kind'] == 'fcc_dtype':
+        check_fcc_dtypes(ctx)
+        return
     {'assign': check_assign, 'partition': check_partition, 'batch': check_batch}[case['kind']](case, ctx)
